@@ -8,6 +8,7 @@ import (
 	"io"
 	"net"
 	"os"
+	"strings"
 	"sync"
 	"time"
 
@@ -46,6 +47,9 @@ type inconclusive struct{ why, msg string }
 // cannot wait for the transaction lock (verified with a lock probe before
 // every request). It only keeps a mutated service from wedging the process.
 const hangGuard = 60 * time.Second
+
+// slowCase: see runCase.
+const slowCase = 12 * time.Second
 
 type kv struct{ k, v []byte }
 
@@ -933,6 +937,16 @@ func runCase(c *Case) (f *Failure, inc *inconclusive, st runStats) {
 	if err != nil {
 		return nil, &inconclusive{"setup", err.Error()}, st
 	}
+	// The registry rolls back handles that were idle for 30 s (and the
+	// transaction manager has TTLs from 1 min). A case normally takes well
+	// under a second; when the machine is so overloaded that a case runs into
+	// the range of those timers, its failures say nothing and are dropped.
+	started := time.Now()
+	defer func() {
+		if f != nil && time.Since(started) > slowCase && !strings.HasSuffix(f.Sig, "blocked") {
+			f, inc = nil, &inconclusive{"slow-case", fmt.Sprintf("case took %v (handle idle timeout is 30 s); dropped failure: %v", time.Since(started), f)}
+		}
+	}()
 	for i := range c.Reqs {
 		f, inc, skipped := x.do(i)
 		if skipped {
